@@ -456,3 +456,16 @@ _pool = cf.ThreadPoolExecutor(max_workers=2)
 
 def model_async(run, invariants=(), properties=(), tag="model"):
     return _pool.submit(model_unit, run, invariants, properties, tag)
+
+
+def buffer_model_unit(run, tag="buffermodel"):
+    """TLC on spec/FlexBuffer.tla (the concrete yy_ch_buf geometry below FlexScanner's streams): owned / user-owned /
+    REJECT buffers of initial size 1..3.  A violation is a defect of the specification (exit 2), not of flex."""
+    tot = 0
+    for cfg in ("own", "own2", "user", "rej"):
+        r = tlc.run("MC_Buffer", cfg="MC_Buffer_%s.cfg" % cfg, workers=2, timeout=600)
+        run.add_tlc(r); tot += r.distinct
+        if r.violated or not r.ok:
+            run.error("MC_Buffer/%s: %s" % (cfg, r.violated or (r.error or "timeout")[:300]))
+    run.unit(tag, module="FlexBuffer", configs=4, distinct=tot,
+             invariants=["Bounds", "Sentinels", "Conservation", "NoJunk", "DoneOK", "OnlyDocumentedFatal"], properties=["GrowthOK", "Terminates"])
